@@ -46,6 +46,9 @@ type convWorld struct {
 	bt   *spynode.VerifBlockThread // ... while it is held between its pop and ProcessBlock
 	dead bool                      // ... it has ended on its own on this connection
 
+	midBlock *gatedBlock // observation ops process_mid_hold / process_mid_release
+	midDone  chan error
+
 	best  []int64
 	sh    bool
 	chanl []cmsg
@@ -214,6 +217,63 @@ func (w *convWorld) bgHold() bool {
 	bt, popped := w.f.node.VerifStartBlockThread(w.f.ctx, true)
 	w.bt = bt
 	return popped
+}
+
+// gatedBlock: a block whose merkle validation waits for the harness (for a large block the real
+// validation hashes every transaction, so this window is not small in production either).
+type gatedBlock struct {
+	wire.Block
+	reached chan struct{}
+	gate    chan struct{}
+}
+
+func (b *gatedBlock) IsMerkleRootValid() bool {
+	close(b.reached)
+	<-b.gate
+	return b.Block.IsMerkleRootValid()
+}
+
+func (w *convWorld) midHold() int64 {
+	st := w.f.node.VerifState()
+	blk := st.NextBlock()
+	if blk == nil {
+		return 0
+	}
+	g := &gatedBlock{Block: blk, reached: make(chan struct{}), gate: make(chan struct{})}
+	done := make(chan error, 1)
+	go func() {
+		err := w.f.node.ProcessBlock(w.f.ctx, g)
+		st.BlockProcessed()
+		done <- err
+	}()
+	w.midBlock, w.midDone = g, done
+	select {
+	case <-g.reached:
+		return 1
+	case err := <-done:
+		done <- err
+		return 2
+	}
+}
+
+// midRelease: 0 ProcessBlock returned nil, 1 it returned an error, -1 nothing was held
+func (w *convWorld) midRelease() int64 {
+	if w.midBlock == nil {
+		return -1
+	}
+	select {
+	case <-w.midBlock.reached:
+		close(w.midBlock.gate)
+	default:
+	}
+	err := <-w.midDone
+	w.midBlock, w.midDone = nil, nil
+	w.f.rec.take()
+	w.f.drainOutgoing()
+	if err != nil {
+		return 1
+	}
+	return 0
 }
 
 func (w *convWorld) frame(code int64, payload []int64) Obs {
@@ -683,6 +743,19 @@ func runConverge(c *Case) ([]Obs, any) {
 					panic(harnessErr("process_hold needs cfg bgblocks"))
 				}
 				return w.frame(OK, []int64{b2i(w.bgHold())})
+			case "process_mid_hold":
+				// OBSERVATION ops (no registered check uses them; findings/parent_race.py does): the next
+				// delivered block is popped like processBlocks does and handed to the real ProcessBlock in a
+				// goroutine; its merkle validation - which ProcessBlock runs AFTER the parent check and BEFORE
+				// blocks.Add - waits.  payload: 0 nothing to pop, 1 held in the validation, 2 ProcessBlock
+				// returned before reaching it
+				return w.frame(OK, []int64{w.midHold()})
+			case "inject_headers":
+				// OBSERVATION op: a headers message with these blocks straight into the real headers handler
+				code, p := w.nodeHeaders(op.Ints(0))
+				return w.frame(code, p)
+			case "process_mid_release":
+				return w.frame(OK, []int64{w.midRelease()})
 			case "process_release":
 				if !w.bg {
 					panic(harnessErr("process_release needs cfg bgblocks"))
